@@ -22,10 +22,16 @@ n = len(rows)
 caught_first = sum(1 for r in rows if '| caught |' in r or '| caught-by-' in r)
 then = sum(1 for r in rows if 'then-caught' in r)
 missed = sum(1 for r in rows if '| missed (' in r)
-hdr = ('%d seeded changes (two independent rounds, two per property and round; every one confirmed by the integrator: '
-       'pinned suite 182/182 with the change, demonstration fails with and passes without it). '
-       'Caught by the checks as they stood when the change arrived: %d; missed or only half-caught at first and caught after the check was '
-       'strengthened (generator, model or oracle — never by special-casing the change): %d; not caught: %d.\n\n' % (n, caught_first, then, missed))
+hdr = ('%d seeded changes (written in several independent waves by fresh sub-agents that were given only the text of one property '
+       'and a scratch worktree of /repo; every one confirmed by the integrator: pinned suite 182/182 with the change, '
+       'demonstration fails with and passes without it). '
+       'Caught with a failing input by the checks as they stood when the change arrived: %d; missed, or caught only at proof/'
+       'correspondence level, at first and caught with a failing input after the check was strengthened (generator, model, oracle or '
+       'source fact - never by special-casing the change): %d; still not caught with a failing input: %d.  '
+       'The first-run misses clustered in: read-side size limits and narrowed integer widths introduced on one side only; end of '
+       'stream / spinning readers; frames, namespaces and caches shared across rules, targets or users; whitelisted natives that '
+       'mutate an argument; check-then-act races in handlers; rarely used syntax positions; objects placed in other zones or '
+       'packages than their relatives.  Each cluster led to a general strengthening described in notes/<ID>.md.\n\n' % (n, caught_first, then, n - caught_first - then))
 tab = hdr + '| seeded/ | change | needs | verdict | violation class(es) reported |\n|---|---|---|---|---|\n' + '\n'.join(rows) + '\n'
 p = HERE + '/DESIGN.md'
 s = open(p).read()
